@@ -50,6 +50,21 @@ def gen(rng, k=None):
     top = np.isin(np.round(z, 3), levels[l1:])
     sym = [str(B) if t else str(A) for t in top]
     s.set_chemical_symbols(sym)
+    if k is not None and (k // 24) % 2 == 1 and len(levels) == l1 + l2:
+        # the upper slab is strained in-plane to the lower one but keeps its own interlayer spacing; the interface spacing is
+        # the mean of the two (the other half of the samples puts both slabs on the lower crystal's lattice)
+        layer = np.searchsorted(levels, np.round(z, 3))
+        dA = levels[1] - levels[0]
+        dB = dA * table[B] / table[A]
+        newz = np.array([levels[0] + j * dA if j < l1 else levels[0] + (l1 - 1) * dA + 0.5 * (dA + dB) + (j - l1) * dB for j in range(l1 + l2)])
+        pos = s.get_positions()
+        grow = (newz[-1] - newz[0]) - (levels[-1] - levels[0])
+        pos[:, 2] = newz[layer]
+        s.set_positions(pos)
+        c = np.array(s.get_cell())
+        c[2, 2] += grow
+        s.set_cell(c)
+        desc["own_interlayer_spacing"] = True
     pz = True if stacking == 2 else bool(stacking)
     s.set_pbc([True, True, pz])
     desc.update({"repeat": n, "layers": [l1, l2], "pbc_z": pz, "vacuum": stacking != 2, "natoms": len(s)})
@@ -67,23 +82,19 @@ def gen(rng, k=None):
     return s, desc, (set(np.flatnonzero(~top).tolist()), set(np.flatnonzero(top).tolist())), None
 
 
-def run(ctx):
-    common.install_matid()
+def sample_stacks(ctx, target, directed=False):
+    """the property on members of the family; `directed`: periodic stacking direction and rattled atoms only (the situations in
+    which the prototype-cell search has to look into neighbouring periodic images) — used when a proof/correspondence is broken"""
     from matid.clustering import SBC
     import crystals
-    broken = []
-    ok, info = prove(ctx, "MatidProps.C03", THEOREMS)
-    if not ok:
-        broken.append(("proof", info))
-    rng = np.random.default_rng(ctx.seed + 3)
-    target = ctx.n(36, 600)
+    rng = np.random.default_rng(ctx.seed + (33 if directed else 3))
     done = k = 0
     f_ok = f_fail = 0
     bad = []
     tries = 0
     while done < target and k < target * 15:
         k += 1
-        s, desc, parts, why = gen(rng, done)          # stratum = number of accepted samples so far
+        s, desc, parts, why = gen(rng, (done // 4) * 12 + 4 + done % 4 + (4 if done % 8 >= 4 else 0) + (24 if (done // 4) % 2 else 0)) if directed else gen(rng, done)          # stratum = number of accepted samples so far
         if why is not None:
             ctx.count("skipped: " + why)
             tries += 1
@@ -93,8 +104,14 @@ def run(ctx):
                 ctx.count("stratum_without_member")
             continue
         tries = 0
-        noise = [0.0, 0.03][int(rng.integers(0, 2))]
+        noise = 0.03 if directed else [0.0, 0.03][int(rng.integers(0, 2))]
         a = s.copy()
+        if directed:
+            # put the lowest layer onto the cell face z = 0 (and the first row onto y = 0): rattled atoms then sit on both sides of
+            # a periodic boundary and the prototype-cell search has to collect them from neighbouring images
+            pos = a.get_positions()
+            a.translate([0.0, -pos[:, 1].min() if done % 2 else 0.0, -pos[:, 2].min()])
+            desc["shifted_onto_cell_face"] = True
         if noise:
             a.rattle(noise / 2, seed=int(rng.integers(0, 10 ** 6)))
         perm = rng.permutation(len(a))
@@ -121,11 +138,30 @@ def run(ctx):
             bad.append({"desc": desc, "complaint": "clusters of sizes %s instead of the two slabs (%d, %d atoms)" % ([len(g) for g in got], len(A), len(B)), "atoms": crystals.atoms_to_json(a)})
         elif dims != [2, 2]:
             bad.append({"desc": desc, "complaint": "cluster dimensionalities %s, expected [2, 2]" % dims, "atoms": crystals.atoms_to_json(a)})
+    return bad, f_ok, f_fail
+
+
+def run(ctx):
+    common.install_matid()
+    from matid.clustering import SBC
+    import crystals
+    broken = []
+    ok, info = prove(ctx, "MatidProps.C03", THEOREMS)
+    if not ok:
+        broken.append(("proof", info))
+    bad, f_ok, f_fail = sample_stacks(ctx, ctx.n(36, 600))
     ctx.coverage["contract_F_held"] = f_ok
     ctx.coverage["contract_F_failed_but_property_judged_separately"] = f_fail
     for b in bad[:5]:
         ctx.finding("stack:%s/%s:%s" % (b["desc"]["bottom"], b["desc"]["top"], b["desc"]["facet"]), "%s on %s %s: %s" % (b["desc"]["top"], b["desc"]["bottom"], b["desc"]["facet"], b["complaint"]),
                     {"kind": "failing-input", "case": b, "how": "SBC().get_clusters(atoms, seed=seed) with default parameters"})
+    import finder_helpers
+    finder_helpers.check(ctx, broken)
+    if broken and not bad:
+        bad, f2, f3 = sample_stacks(ctx, ctx.n(60, 300), directed=True)
+        for b in bad[:5]:
+            ctx.finding("stack:%s/%s:%s" % (b["desc"]["bottom"], b["desc"]["top"], b["desc"]["facet"]), "%s on %s %s (directed): %s" % (b["desc"]["top"], b["desc"]["bottom"], b["desc"]["facet"], b["complaint"]),
+                        {"kind": "failing-input", "case": b, "how": "SBC().get_clusters(atoms, seed=seed) with default parameters"})
     if broken and not ctx.findings:
         ctx.finding("unproved", "conditional theorem no longer checks, no failing stack found", {"kind": "broken-obligation", "broken": broken}, found_input=False)
     ctx.coverage["broken"] = [{"what": k_, "info": i} for k_, i in broken]
